@@ -124,7 +124,14 @@ void cpc_union_alloc<A>::internal_update(S&& sketch) {
 
     // The following partially fixes the snowplow problem provided that the K's are equal.
     if (cpc_sketch_alloc<A>::flavor::EMPTY == initial_dest_flavor && lg_k == sketch.get_lg_k()) {
-      *accumulator = std::forward<S>(sketch);
+      // replace the accumulator object: its storage came from the allocator it currently holds
+      // and must go back there, the replacement travels with the allocator of the sketch
+      AllocCpc new_allocator(sketch.get_allocator());
+      auto* replacement = new (new_allocator.allocate(1)) cpc_sketch_alloc<A>(std::forward<S>(sketch));
+      AllocCpc old_allocator(accumulator->get_allocator());
+      accumulator->~cpc_sketch_alloc<A>();
+      old_allocator.deallocate(accumulator, 1);
+      accumulator = replacement;
       return;
     }
 
